@@ -146,6 +146,8 @@ def finish(prop, tier, seed, contracts, results, extra, t0, write_baseline=False
                 still = not j["agrees"]
             except Exception:
                 still = None
+        elif "bounded_class" in k:
+            still = any(o.get("info", {}).get("known_finding_hits", {}).get(k["bounded_class"], 0) > 0 for o in extra)
         elif "witness_cmd" in k:
             still = _run_witness_cmd(k["witness_cmd"])
         if still:
@@ -167,8 +169,10 @@ def finish(prop, tier, seed, contracts, results, extra, t0, write_baseline=False
         samples.append({"obligation": o["name"], "kind": o["kind"], "function": o.get("function"),
                         "where": o.get("where"), "result": o["status"], "backend": o.get("backend"),
                         "solver_time_s": o.get("time_s"), "size": o.get("ground")})
+    enum = [o for o in extra if o.get("backend") == "enumeration"]
+    level = "exploration" if enum else "proof"
     evidence = {
-        "property_id": prop, "tier": tier, "seed": seed, "level": "proof",
+        "property_id": prop, "tier": tier, "seed": seed, "level": level,
         "coverage": {
             "obligations": n, "discharged": discharged,
             "checker_cmd": f"bin/check {prop} --tier {tier}",
@@ -193,6 +197,15 @@ def finish(prop, tier, seed, contracts, results, extra, t0, write_baseline=False
         "wall_s": round(time.time() - t0, 2),
         "violations": len(violations),
     }
+    if enum:
+        cov = evidence["coverage"]
+        cov["evaluations"] = sum(o.get("evaluations", 0) for o in enum)
+        cov["distinct_nontrivial"] = sum(o.get("distinct_nontrivial", 0) for o in enum)
+        cov["rule"] = " | ".join(o.get("rule", "") for o in enum)
+        cov["samples"] = [x for o in enum for x in o.get("samples", [])] or samples
+        cov["proved_part"] = ("the contract obligations listed under functions_under_contract are discharged for all inputs; "
+                              "the property's top-level statement is decided only by the bounded stand-in(s) in "
+                              "bounded_standins, over the stated finite domain -- bounded, not proved")
     os.makedirs(os.path.join(ROOT, "evidence"), exist_ok=True)
     json.dump(evidence, open(os.path.join(ROOT, "evidence", f"{prop}.json"), "w"), indent=1, ensure_ascii=True, default=repr)
 
